@@ -12,10 +12,11 @@ import Model.PngDriver
 import Model.VectorDriver
 import Model.RasterDocsDriver
 import Model.RoutesDriver
+import Model.C14Driver
 
 namespace Model
 
-def handlers : List (String → Req → Option String) := [handleCore, Lines.handle, Helpers.handle, CliDriver.handle, Iter.handle, handleSequence, PngDriver.handle, VectorDriver.handle, RasterDocsDriver.handle, RoutesDriver.handle]
+def handlers : List (String → Req → Option String) := [handleCore, Lines.handle, Helpers.handle, CliDriver.handle, Iter.handle, handleSequence, PngDriver.handle, VectorDriver.handle, RasterDocsDriver.handle, RoutesDriver.handle, C14Driver.handle]
 
 def handle (line : String) : String :=
   let (cmd, r) := parseReq line
